@@ -26,20 +26,26 @@ const (
 	kBytes             // []byte, string    -> list N
 	kErr               // error             -> goerror
 	kBools             // []bool            -> list bool
+	kUint              // uint16/uint32/uint64 -> N, wraps mod 2^w
+	kInt32             // int32 -> Z (only conversions are supported)
 	kTuple
 )
 
 type gtype struct {
 	k     kind
 	elems []gtype
+	w     int  // kUint: width in bits
+	isStr bool // kBytes: a Go string (immutable), not a []byte
 }
 
 func (g gtype) coq() string {
 	switch g.k {
 	case kInt:
 		return "Z"
-	case kByte:
+	case kByte, kUint:
 		return "N"
+	case kInt32:
+		return "Z"
 	case kBool:
 		return "bool"
 	case kBytes:
@@ -158,6 +164,11 @@ type funcInfo struct {
 	text     string
 	isTables bool
 	tblVars  []types.Object
+	// out-parameters: []byte parameters whose elements the function (or a callee) assigns; their final value is
+	// returned as extra components of the result and re-bound by the callers
+	outParams []int
+	origRes   gtype
+	paramObjs []types.Object
 }
 
 type translator struct {
@@ -247,6 +258,7 @@ func translate(repo string, sp *spec) (text string, names []string, err error) {
 	for _, fi := range T.funcs {
 		T.signature(fi)
 	}
+	T.computeOutParams()
 	for _, fi := range T.funcs {
 		T.body(fi)
 	}
@@ -298,6 +310,7 @@ func translate(repo string, sp *spec) (text string, names []string, err error) {
 type bind struct {
 	name string
 	rhs  string // a term of type gres _
+	let  string // optional: "let '<pattern> := name in" after the bind (results + re-bound out-parameters)
 }
 
 type cont struct {
@@ -312,16 +325,17 @@ type cctx struct {
 }
 
 type ftr struct {
-	T      *translator
-	fi     *funcInfo
-	p      *pkgInfo
-	names  map[types.Object]string
-	nlocal int
-	ntemp  int
-	njoin  int
-	nloop  int
-	pre    *[]bind
-	locals []string // "v0=i" for the header comment
+	T       *translator
+	fi      *funcInfo
+	p       *pkgInfo
+	names   map[types.Object]string
+	nlocal  int
+	ntemp   int
+	njoin   int
+	nloop   int
+	pre     *[]bind
+	rebinds int
+	locals  []string // "v0=i" for the header comment
 }
 
 func (t *ftr) pos(n ast.Node) string {
@@ -349,10 +363,18 @@ func (t *ftr) gtypeOf(n ast.Node, ty types.Type) gtype {
 			return gtype{k: kInt}
 		case types.Uint8:
 			return gtype{k: kByte}
+		case types.Uint16:
+			return gtype{k: kUint, w: 16}
+		case types.Uint32:
+			return gtype{k: kUint, w: 32}
+		case types.Uint64:
+			return gtype{k: kUint, w: 64}
+		case types.Int32:
+			return gtype{k: kInt32}
 		case types.Bool, types.UntypedBool:
 			return gtype{k: kBool}
 		case types.String, types.UntypedString:
-			return gtype{k: kBytes}
+			return gtype{k: kBytes, isStr: true}
 		}
 	case *types.Slice:
 		if b, ok := u.Elem().(*types.Basic); ok {
@@ -416,6 +438,11 @@ func (T *translator) signature(fi *funcInfo) {
 		}
 		for i := 0; i < n; i++ {
 			fi.params = append(fi.params, g)
+			if i < len(f.Names) {
+				fi.paramObjs = append(fi.paramObjs, fi.pkg.info.Defs[f.Names[i]])
+			} else {
+				fi.paramObjs = append(fi.paramObjs, nil)
+			}
 		}
 	}
 	if ft.Results == nil || len(ft.Results.List) == 0 {
@@ -432,6 +459,97 @@ func (T *translator) signature(fi *funcInfo) {
 		res = res.elems[0]
 	}
 	fi.result = res
+	fi.origRes = res
+}
+
+// which []byte parameters are written through (element assignment, copy destination, or passed on to an
+// out-parameter of another function of the spec); fixpoint over the call graph
+func (T *translator) computeOutParams() {
+	isOut := func(fi *funcInfo, i int) bool {
+		for _, o := range fi.outParams {
+			if o == i {
+				return true
+			}
+		}
+		return false
+	}
+	for changed := true; changed; {
+		changed = false
+		for _, fi := range T.funcs {
+			if fi.isTables || fi.decl.Body == nil {
+				continue
+			}
+			mark := func(e ast.Expr) {
+				for {
+					switch x := e.(type) {
+					case *ast.ParenExpr:
+						e = x.X
+						continue
+					case *ast.IndexExpr:
+						e = x.X
+						continue
+					case *ast.SliceExpr:
+						e = x.X
+						continue
+					}
+					break
+				}
+				id, ok := e.(*ast.Ident)
+				if !ok {
+					return
+				}
+				o := fi.pkg.info.Uses[id]
+				for i, po := range fi.paramObjs {
+					if po != nil && po == o && fi.params[i].k == kBytes && !fi.params[i].isStr && !isOut(fi, i) {
+						fi.outParams = append(fi.outParams, i)
+						sort.Ints(fi.outParams)
+						changed = true
+					}
+				}
+			}
+			ast.Inspect(fi.decl.Body, func(n ast.Node) bool {
+				switch x := n.(type) {
+				case *ast.AssignStmt:
+					for _, l := range x.Lhs {
+						if ie, ok := l.(*ast.IndexExpr); ok {
+							mark(ie)
+						}
+					}
+				case *ast.CallExpr:
+					if id, ok := x.Fun.(*ast.Ident); ok {
+						if id.Name == "copy" && len(x.Args) == 2 {
+							if _, isB := fi.pkg.info.Uses[id].(*types.Builtin); isB {
+								mark(x.Args[0])
+							}
+						}
+						if callee, ok := T.byObj[fi.pkg.info.Uses[id]]; ok {
+							for _, oi := range callee.outParams {
+								if oi < len(x.Args) {
+									mark(x.Args[oi])
+								}
+							}
+						}
+					}
+				}
+				return true
+			})
+		}
+	}
+	for _, fi := range T.funcs {
+		if len(fi.outParams) == 0 {
+			continue
+		}
+		res := gtype{k: kTuple}
+		if fi.origRes.k == kTuple {
+			res.elems = append(res.elems, fi.origRes.elems...)
+		} else {
+			res.elems = append(res.elems, fi.origRes)
+		}
+		for _, i := range fi.outParams {
+			res.elems = append(res.elems, fi.params[i])
+		}
+		fi.result = res
+	}
 }
 
 func (T *translator) body(fi *funcInfo) {
@@ -492,6 +610,13 @@ func (T *translator) body(fi *funcInfo) {
 	var b strings.Builder
 	sig := types.ExprString(fi.decl.Type)
 	fmt.Fprintf(&b, "(* %s: %s%s\n", fi.sf.File, fi.sf.Func, strings.TrimPrefix(sig, "func"))
+	if len(fi.outParams) > 0 {
+		var ops []string
+		for _, i := range fi.outParams {
+			ops = append(ops, fmt.Sprintf("p%d", i))
+		}
+		fmt.Fprintf(&b, "   the function writes through %s: its final value is returned as an extra component\n", strings.Join(ops, ", "))
+	}
 	if len(t.locals) > 0 {
 		fmt.Fprintf(&b, "   names: %s *)\n", strings.Join(t.locals, " "))
 	} else {
@@ -642,6 +767,9 @@ func renderBinds(bs []bind) string {
 			fmt.Fprintf(&b, "%s <~ (\n%s) ;;\n", x.name, indent(x.rhs, 2))
 		} else {
 			fmt.Fprintf(&b, "%s <~ %s ;;\n", x.name, x.rhs)
+		}
+		if x.let != "" {
+			fmt.Fprintf(&b, "let '%s := %s in\n", x.let, x.name)
 		}
 	}
 	return b.String()
